@@ -10,7 +10,7 @@ for d in seeded/*/; do
   git -C /repo apply "$PWD/${d}patch.diff" || { echo "$name: patch does not apply"; continue; }
   out=$(./check "$id" --tier "$TIER" 2>&1); rc=$?
   git -C /repo checkout -- .
-  first=$(echo "$out" | grep "key=" | head -1 | cut -c1-160)
+  first=$(echo "$out" | grep -a "key=" | head -1 | cut -c1-160)
   if [ $rc -eq 1 ]; then echo "$name: detected by $id ($first)"; else echo "$name: MISSED by $id rc=$rc"; fi
 done
 git checkout -- evidence 2>/dev/null
